@@ -82,7 +82,18 @@ ASSUMPTIONS = [
     '"__default__" then the distinct currencies, Decimal() is 0, self.quantize is an opaque callable = quant; no commodity is named '
     '"__default__"; an owned AmountRenderer is the tuple of its fields and calling its methods is interpreting AmountRenderer\'s '
     'translated methods (Model/PrimsRenderPos.v); AmountRenderer(ctx) inside PositionRenderer.__init__ is an opaque callable assumed '
-    'to return what C16_source_amount_init proves.  NOT tied by translation: InventoryRenderer, SetRenderer, EnumRenderer, CostRenderer',
+    'to return what C16_source_amount_init proves.  NOT tied by translation: InventoryRenderer, SetRenderer, EnumRenderer, CostRenderer '
+    '(superseded for Cost / Set / Enum by the next entry; InventoryRenderer is still not tied: its dict subscripts with str / bool keys, '
+    'Counter, defaultdict(lambda) and sorted(key=) are outside what RenderTranslator translates and PyMini\'s XIndex interprets)',
+    'translator tie, CostRenderer / SetRenderer / EnumRenderer (bld-render4, bld-render5; C16_source_cost_*, C16_cost_fits, '
+    'C16_source_set_*, C16_source_enum_format): CostRenderer in group render (coq/Proofs/SrcRenderCost.v), SetRenderer.__init__ '
+    '(without super().__init__(ctx)) / update / format and EnumRenderer.format in group renderset (coq/Gen/SrcRenderSet.v, no opaque '
+    'callables; generator expressions are translated as list comprehensions); trusted: coq/Model/PrimsRenderCost.v (a Cost handed to the '
+    'owned AmountRenderer is its (number, currency) - update/format of AmountRenderer read nothing else; format(date, \'%Y-%m-%d\') = '
+    'Render.date_str; the AmountRenderer(ctx) call returns what C16_source_amount_init proves) and coq/Model/PrimsRenderSet.v (a set of '
+    'str is the list of its elements in arbitrary order, sorted() = Render.sort_strs, sum() of ints = left fold of + from 0, '
+    'sep.join = Render.join, str(x) of a str is x, ctx.listsep reads the RenderContext encoding, an Enum member is the pair (tag, name) '
+    'and .name reads it; InventoryRenderer.positionsortkey, a plain function: a Position carries an Amount and a full Cost or None, -Decimal = Base.Decimal.dec_neg - C16_source_inventory_sortkey); C16_cost_fits assumes the amount part fits its AmountRenderer width and that %Y-%m-%d gives 10 characters',
 ]
 
 
@@ -90,7 +101,9 @@ def generate():
     """translator tie: regenerate coq/Gen/SrcRender.v from the source of the imported column renderers (py2mini +
     src_render); raises py2mini.Untranslatable when a tied method left the fragment (reported as translator-failed)"""
     from . import gen_src
-    return gen_src.generate('render')
+    out = gen_src.generate('render')
+    out.update(gen_src.generate('renderset'))      # SetRenderer / EnumRenderer (coq/Gen/SrcRenderSet.v)
+    return out
 
 # ------------------------------------------------------------------ cases (JSON-able)
 # cell encodings: None | ['e',member name] | ['b',bool] | ['i',int] | ['d',str] | ['s',str] | ['D',y,m,d] | ['S',[str]] | ['o',dict]
